@@ -7,7 +7,9 @@
 package main
 
 import (
+	"bytes"
 	"fmt"
+	"reflect"
 	"sort"
 	"strings"
 
@@ -270,6 +272,9 @@ func (c *ctx) checkSingle(s *spec, o interface{}, rest []byte) {
 			propOK = false
 			rep.Fail("property", s.name+":consumed", fmt.Sprintf("decoder consumed %d of its %d bytes (rest %d)", d.consumed, len(b), len(rest)), rc)
 		}
+		if !c.checkIdentity(s, o, d.obj, m, want, b, rc, "") {
+			propOK = false
+		}
 	}
 	// correspondence with the model
 	hl := 0
@@ -348,6 +353,7 @@ func (c *ctx) checkStream(items []item) {
 	var recs []map[string]string
 	var itexts []string
 	var lens []int
+	var encs [][]byte
 	for _, it := range items {
 		m := dump(it.o, it.s)
 		recs = append(recs, m)
@@ -357,6 +363,7 @@ func (c *ctx) checkStream(items []item) {
 		steps = append(steps, it.o.(step.Step))
 		b, _ := encode(it.s, it.o)
 		lens = append(lens, len(b))
+		encs = append(encs, b)
 		rep.Count("stream-step:" + it.s.name)
 	}
 	canon := strings.Join(itexts, "|")
@@ -387,6 +394,7 @@ func (c *ctx) checkStream(items []item) {
 		m    map[string]string
 		typ  string
 		cons int
+		obj  step.Step
 	}
 	var outs []one
 	in := gio.NewDataInputX(b)
@@ -405,7 +413,7 @@ func (c *ctx) checkStream(items []item) {
 			break
 		}
 		sp := specOfObj(st)
-		outs = append(outs, one{dump(st, sp), sp.name, before - int(in.Available())})
+		outs = append(outs, one{dump(st, sp), sp.name, before - int(in.Available()), st})
 	}
 	if propOK {
 		if len(outs) != len(items) {
@@ -416,8 +424,11 @@ func (c *ctx) checkStream(items []item) {
 			it := items[k]
 			if outs[k].typ != it.s.name {
 				propOK = false
-				rep.Fail("property", it.s.name+":type", fmt.Sprintf("step %d written as %s read as %s", k, it.s.name, outs[k].typ), rc)
+				rep.Fail("property", "Step.ReadStep:concrete-type", fmt.Sprintf("step %d written as %s read as %s", k, it.s.name, outs[k].typ), rc)
 				break
+			}
+			if !c.checkIdentity(it.s, it.o, outs[k].obj, recs[k], carried(it.s.name, recs[k]), encs[k], rc, fmt.Sprintf("step %d of %d: ", k, len(items))) {
+				propOK = false
 			}
 			if bad := diffFields(carried(it.s.name, recs[k]), outs[k].m); len(bad) > 0 {
 				propOK = false
@@ -546,6 +557,117 @@ func lenBucket(n int) string {
 		return "101-199"
 	}
 	return ">=200"
+}
+
+
+// ---------------------------------------------------------------- identity of the decoded object
+
+func typeCodeOf(o interface{}) (int, bool) {
+	switch x := o.(type) {
+	case interface{ GetStepType() byte }:
+		return int(x.GetStepType()), true
+	case interface{ GetServiceType() byte }:
+		return int(x.GetServiceType()), true
+	case interface{ GetPackType() int16 }:
+		return int(x.GetPackType()), true
+	}
+	return 0, false
+}
+
+func sameMap(a, b map[string]string) bool {
+	if len(a) != len(b) {
+		return false
+	}
+	for k, v := range a {
+		if w, ok := b[k]; !ok || w != v {
+			return false
+		}
+	}
+	return true
+}
+
+// expectedReencoding: the bytes a decoded object must re-encode to — the original encoding, or,
+// where the decoder deliberately normalises (TxRecord error level, empty field map), the encoding
+// of the carried value.
+func expectedReencoding(s *spec, orig interface{}, m, want map[string]string, b []byte) ([]byte, bool) {
+	if sameMap(m, want) {
+		return b, true
+	}
+	var out []byte
+	oc := vh.Guard(func() {
+		co := fromRec(s, recText(want))
+		if s.fam == "pack" { // the header is not part of the record text
+			src := reflect.ValueOf(orig).Elem().FieldByName("AbstractPack")
+			dst := reflect.ValueOf(co).Elem().FieldByName("AbstractPack")
+			if src.IsValid() && dst.IsValid() {
+				dst.Set(src)
+			}
+		}
+		var eo vh.Outcome
+		out, eo = encode(s, co)
+		if !eo.OK() {
+			panic(eo.Panic)
+		}
+	})
+	return out, oc.OK()
+}
+
+// checkIdentity: "returns the same steps / records" also means the same concrete Go type, the same
+// type code, and an object that writes the same bytes again.  Returns false when something differs.
+func (c *ctx) checkIdentity(s *spec, orig, dec interface{}, m, want map[string]string, b []byte, rc interface{}, where string) bool {
+	rep := c.rep
+	ok := true
+	to, td := reflect.TypeOf(orig), reflect.TypeOf(dec)
+	if to != td {
+		ok = false
+		key := s.name + ":concrete-type"
+		switch s.fam {
+		case "svc":
+			key = "Service.ToObject:concrete-type"
+		case "step":
+			key = "Step.ReadStep:concrete-type"
+		}
+		rep.Fail("property", key, fmt.Sprintf("%swritten as %v, decoded as %v", where, to, td), rc)
+	}
+	co, ho := typeCodeOf(orig)
+	cd, hd := typeCodeOf(dec)
+	if ho != hd || co != cd {
+		ok = false
+		rep.Fail("property", s.name+":type-code", fmt.Sprintf("%sthe written object answers type code %d, the decoded one %d", where, co, cd), rc)
+	}
+	exp, eok := expectedReencoding(s, orig, m, want, b)
+	if !eok {
+		return ok // the carried value could not be rebuilt by the harness: nothing to compare with
+	}
+	var again []byte
+	oc := vh.Guard(func() {
+		out := gio.NewDataOutputX()
+		switch x := dec.(type) {
+		case step.Step:
+			if s.fam == "step" {
+				step.WriteStep(out, x)
+			} else {
+				x.Write(out)
+			}
+		case service.Service:
+			service.ToBytes(x, out)
+		case writer:
+			x.Write(out)
+		default:
+			panic(fmt.Sprintf("decoded object %T cannot be written", dec))
+		}
+		again = out.ToByteArray()
+	})
+	if !oc.OK() {
+		rep.Fail("property", s.name+":reencode-panic", where+"writing the decoded object panicked: "+vh.Clip(oc.Panic, 100), rc)
+		return false
+	}
+	if !bytes.Equal(again, exp) {
+		ok = false
+		rep.Fail("property", s.name+":reencode-differs",
+			fmt.Sprintf("%sthe decoded object writes %s, the original %s", where, vh.Clip(vh.Hex(again), 60), vh.Clip(vh.Hex(exp), 60)), rc)
+	}
+	return ok
 }
 
 // ---------------------------------------------------------------- main
